@@ -62,7 +62,7 @@ func fmtVerb(t *rapid.T) (string, spec.V) {
 	return "%" + flags + width + prec + mode, arg
 }
 
-var fmtLiterals = []string{"", "", "a", " ", "x=", "e", "\U0001F469", "o", "\u00e9", "%%", "-", "e\u0301", "Hello, ", "100%% ", "n<", "k>", "key="}
+var fmtLiterals = []string{"", "", "a", " ", "x=", "e", "\U0001F469", "o", "\u00e9", "%%", "-", "e\u0301", "Hello, ", "100%% ", "n<", "k>", "key=", "\u0301", "\u0338\u0323"}
 
 func formatArgs(t *rapid.T, list bool) []spec.V {
 	n := rapid.IntRange(0, 3).Draw(t, "nverbs")
